@@ -16,12 +16,22 @@ def behaviours_of(out):
     return res
 
 
-def run_pipeline(run, exh_depth, sim_depth, sim_num, sim_cap, focus="all", bgbind=False):
-    """returns dict(mc, behaviours, rows, res)"""
+def run_pipeline(run, exh_depth, sim_depth, sim_num, sim_cap, focus="all", bgbind=False, exh_cap=40000):
+    """returns dict(mc, behaviours, rows, res).  The design model is always checked exhaustively to exh_depth; of its behaviours all
+    of length exh_depth-1 are replayed on the implementation, and of those of full length a seeded sample when there
+    are more than exh_cap (the alphabet has grown to where length 3 alone is 470 000 behaviours)."""
     mc = run.tlc("Dir20", MC_CFG % (exh_depth, focus, " Emit"), workers=4, timeout=1800)
     if mc.violations:
         raise vlib.Infra("design model Dir20 violates %s (model-only)" % mc.violations[0]["name"])
     behs = behaviours_of(mc.out)
+    nall = len(behs)
+    if len(behs) > exh_cap:
+        # Emit prints full-length behaviours only: take every behaviour one step shorter from a second exhaustive run
+        mc1 = run.tlc("Dir20", MC_CFG % (exh_depth - 1, focus, " Emit"), workers=4, timeout=1800)
+        short = behaviours_of(mc1.out)
+        full = behs
+        random.Random(run.seed * 7919 + 1).shuffle(full)
+        behs = short + full[:max(0, exh_cap - len(short))]
     sim = run.tlc("Dir20", SIM_CFG % (sim_depth, focus), workers=1, timeout=900, simulate="num=%d" % sim_num,
                   depth=sim_depth + 2, extra=["-seed", str(run.seed)])
     sb = behaviours_of(sim.out)
@@ -39,7 +49,7 @@ def run_pipeline(run, exh_depth, sim_depth, sim_num, sim_cap, focus="all", bgbin
     run.harness(["c20", "-in", bfile, "-out", obs, "-par", "8"] + (["-bgbind"] if bgbind else []), timeout=3000)
     rows = vlib.read_ndjson(obs)
     res = run.tlc("Dir20Trace", TRACE_CFG, env={"OBS": obs}, workers=1, cont=True, timeout=1800, heap="8g")
-    return {"mc": mc, "behaviours": behs, "rows": rows, "res": res, "nexh": len(behs) - len(uniq[:sim_cap]), "nsim": len(uniq[:sim_cap])}
+    return {"mc": mc, "behaviours": behs, "rows": rows, "res": res, "nexh": len(behs) - len(uniq[:sim_cap]), "nexh_model": nall, "nsim": len(uniq[:sim_cap])}
 
 
 def trace_of(rows, l):
